@@ -1123,11 +1123,8 @@ func (t *Tokenizer) readQuotedString(quote rune) (models.Token, error) {
 		if r == '\\' {
 			// Handle escape sequences
 			if err := t.handleEscapeSequence(&buf); err != nil {
-				return models.Token{}, errors.InvalidSyntaxError(
-					fmt.Sprintf("invalid escape sequence: %v", err),
-					t.getCurrentPosition(),
-					string(t.input),
-				)
+				// a lexical error with its own tokenizer code and location: pass it on as it is
+				return models.Token{}, err
 			}
 			continue
 		}
@@ -1218,7 +1215,8 @@ func (t *Tokenizer) handleEscapeSequence(buf *bytes.Buffer) error {
 	t.pos.Column++
 
 	if t.pos.Index >= len(t.input) {
-		return errors.IncompleteStatementError(t.getCurrentPosition(), string(t.input))
+		// the input ends inside the string literal, right after a backslash
+		return errors.UnterminatedStringError(t.getCurrentPosition(), string(t.input))
 	}
 
 	r, size := utf8.DecodeRune(t.input[t.pos.Index:])
@@ -1232,11 +1230,8 @@ func (t *Tokenizer) handleEscapeSequence(buf *bytes.Buffer) error {
 	case 't':
 		buf.WriteRune('\t')
 	default:
-		return errors.InvalidSyntaxError(
-			fmt.Sprintf("invalid escape sequence '\\%c'", r),
-			t.getCurrentPosition(),
-			string(t.input),
-		)
+		// not an escape character: a lexical error on that character
+		return errors.UnexpectedCharError(r, t.getCurrentPosition(), string(t.input))
 	}
 
 	t.pos.Index += size
@@ -1344,7 +1339,8 @@ func (t *Tokenizer) readNumber(buf []byte) (models.Token, error) {
 // readPunctuation picks out punctuation or operator tokens
 func (t *Tokenizer) readPunctuation() (models.Token, error) {
 	if t.pos.Index >= len(t.input) {
-		return models.Token{}, errors.IncompleteStatementError(t.getCurrentPosition(), string(t.input))
+		return models.Token{}, errors.NewError(errors.ErrCodeInvalidOperator, "unexpected end of input",
+			t.getCurrentPosition()).WithContext(string(t.input), 1)
 	}
 	r, size := utf8.DecodeRune(t.input[t.pos.Index:])
 	switch r {
